@@ -223,6 +223,40 @@ def gen_values(rng, s, o, n, dyadic):
     return mode, vals
 
 
+def integer_scaling_probe(ck):
+    """fixed cases: a scaling given with Python ints (lists of ints, as a caller writing `scales=[2, 2, 2]` does). The
+    coordinates presented are X*scale+offset, also when that exceeds 32 bits"""
+    import laspy
+    for how in ("LasData.change_scaling", "record constructor", "record.change_scaling"):
+        X = [1500000000, -1400000000, 5]
+        inp = {"kind": "integer_scaling", "how": how, "scales": [2, 2, 2], "offsets": [0, 0, 0], "X": X, "finding_key": "C11:integer_scaling"}
+        ck.case(("intscale", how), nontrivial=True)
+        ck.count("integer_scaling_probe")
+        try:
+            if how == "LasData.change_scaling":
+                las = laspy.create(point_format=0)
+                las.points = laspy.ScaleAwarePointRecord.zeros(3, header=las.header)
+                las.change_scaling(scales=[2, 2, 2], offsets=[0, 0, 0])
+                las.points.array["X"] = X
+                pres = np.array(las.x)
+            elif how == "record constructor":
+                rec = laspy.ScaleAwarePointRecord.zeros(3, point_format=laspy.PointFormat(0), scales=[2, 2, 2], offsets=[0, 0, 0])
+                rec.array["X"] = X
+                pres = np.array(rec.x)
+            else:
+                rec = laspy.ScaleAwarePointRecord.zeros(3, point_format=laspy.PointFormat(0), scales=np.array([1.0, 1.0, 1.0]), offsets=np.zeros(3))
+                rec.change_scaling(scales=[2, 2, 2], offsets=[0, 0, 0])
+                rec.array["X"] = X
+                pres = np.array(rec.x)
+        except Exception as e:
+            ck.count("integer_scaling_probe_raised:" + type(e).__name__)
+            continue
+        want = [2 * v for v in X]
+        if [int(v) for v in pres.tolist()] != want:
+            ck.fail(f"scaling given as Python ints ({how}, scales [2, 2, 2], offsets [0, 0, 0]): stored X {X} is presented as "
+                    f"{pres.tolist()}, X*scale+offset is {want} (the product wrapped in 32 bits)", inp)
+
+
 def stream_layer(ck, n_cases):
     """scale-aware records streamed into a writer or an appender that uses another scaling: the file carries the
     destination's scaling, its coordinates are those the record presented (to within half a step) or the call raises
@@ -448,6 +482,7 @@ def run(ck):
             pass
     ck.count("skipped_near_tie", skipped)
     stream_layer(ck, 60 if q else 1500)
+    integer_scaling_probe(ck)
     out = ck.driver(lines)
     bad = None
     if out is None or len(out) != len(lines):
